@@ -5,6 +5,7 @@ real AppCfgMgr / Cleanup.invoke / MonitorContainerCleanup on a real temporary
 directory (mc/c13_world.py).  See DESIGN 5/C13.
 """
 import collections
+import time
 
 from mc import statex
 from mc import c13_world as W
@@ -16,21 +17,80 @@ BUDGET = {'quick': 60, 'thorough': 570}
 _FLAGGED = ('rdy', 'put', 'del', 'rep', 'fin')
 
 
+class Lazy:
+    """World handle given to statex: records the history and materialises the
+    real world on first use, so that the successors of one replay-built state
+    can start from a directory-tree checkpoint of that replay."""
+
+    def __init__(self, spec):
+        self.__dict__['_spec'] = spec
+        self.__dict__['_hist'] = []
+        self.__dict__['_w'] = None
+
+    def real(self):
+        if self._w is None:
+            self.__dict__['_w'] = self._spec.materialise(tuple(self._hist))
+        return self._w
+
+    def __getattr__(self, name):
+        return getattr(self.real(), name)
+
+
+XCHECK_EVERY = 97       # every 97th successor is re-built by full replay
+
+
 class NodeSpec(statex.Spec):
-    def __init__(self, cfg):
+    def __init__(self, cfg, checkpoints=True):
         self.cfg = cfg
+        self.checkpoints = checkpoints
+        self._ck = None         # (history, token) of the last expanded state
+        self._n = 0
+        self.xchecks = 0
 
     def new_world(self):
-        return W.NodeWorld(self.cfg)
+        return Lazy(self)
+
+    def replayed(self, hist):
+        w = W.NodeWorld(self.cfg)
+        for ev in hist:
+            w.apply(tuple(ev))
+        return w
+
+    def materialise(self, hist):
+        if self.checkpoints and self._ck is not None \
+                and self._ck[0] == hist:
+            return W.NodeWorld(self.cfg, token=self._ck[1])
+        return self.replayed(hist)
 
     def apply(self, world, event):
-        world.apply(tuple(event))
+        event = tuple(event)
+        if world._w is not None:
+            world._w.apply(event)
+        world._hist.append(event)
 
     def enabled(self, world):
-        return world.enabled()
+        w = world.real()
+        menu = w.enabled()
+        hist = tuple(world._hist)
+        if self.checkpoints and (self._ck is None or self._ck[0] != hist):
+            self._ck = (hist, w.checkpoint())
+        return menu
 
     def canon(self, world):
-        return world.canon()
+        w = world.real()
+        c = w.canon()
+        self._n += 1
+        if self.checkpoints and self._n % XCHECK_EVERY == 0:
+            keys = sorted({(v['clause'], v['site']) for v in w.viol})
+            w2 = self.replayed(tuple(world._hist))
+            keys2 = sorted({(v['clause'], v['site']) for v in w2.viol})
+            if w2.canon() != c or keys != keys2:
+                raise statex.HarnessError(
+                    'checkpoint and full replay disagree on %r'
+                    % (world._hist,))
+            w2.stats.clear()
+            w.stats['checkpoint_crosschecks'] += 1
+        return c
 
     def dev_cost(self, event):
         if event[0] == 'dlv':
@@ -38,17 +98,22 @@ class NodeSpec(statex.Spec):
         return 1 if event[0] in _FLAGGED and event[-1] != 1 else 0
 
     def probe(self, history):
-        w = statex.build(self, history)
+        hist = tuple(tuple(e) for e in history)
+        w = self.replayed(hist)
         st = {'states_probed': 1}
         if w.two_generations():
             st['states_with_two_generations'] = 1
         if w.fifo:
             st['states_with_pending_notifications'] = 1
+        if self.checkpoints:
+            self._ck = (hist, w.checkpoint())
         return [], st
 
 
 def configs(ctx, salt=None):
-    """[(name, cfg, depth, max_deviations)]"""
+    """[(name, cfg, depth, max_deviations, share of the time budget)].  The
+    deviation-free search comes first so that a violation that needs no
+    deviation is reported with a deviation-free history."""
     if salt is None:
         salt = W.choose_salt()
     if ctx.quick:
@@ -57,13 +122,13 @@ def configs(ctx, salt=None):
                'bad': {'a': (0,), 'b': (0, 1)},
                'fin': ('exit',), 'late_tomb': False, 'boot': True,
                'rep': True, 'crash_points': 2}
-        return [('N2x2', cfg, 7, 2)]
+        return [('N2x2-dev0', cfg, 7, 0, 0.3), ('N2x2-dev2', cfg, 6, 2, 0.7)]
     cfg = {'salt': salt, 'keys': ('a', 'b'),
            'maxgen': {'a': 2, 'b': 2},
            'bad': {'a': (0,), 'b': (0, 1)},
            'fin': ('exit', 'abort', 'oom'), 'late_tomb': True, 'boot': True,
            'rep': True, 'crash_points': 3}
-    return [('N2x2', cfg, 9, 2)]
+    return [('N2x2-dev0', cfg, 10, 0, 0.25), ('N2x2-dev2', cfg, 9, 2, 0.75)]
 
 
 RULE = ('BFS over histories of node events (cache put/del by eventmgr x '
@@ -102,9 +167,9 @@ ASSUMPTIONS = [
 
 
 def observe(spec, history):
-    w = statex.build(spec, [tuple(e) for e in history])
+    w = spec.replayed([tuple(e) for e in history])
     keys = sorted({(v['clause'], v['site']) for v in w.viol})
-    return keys, statex.digest(spec.canon(w))
+    return keys, statex.digest(w.canon())
 
 
 def confirm(spec, hist, clause, site):
@@ -132,11 +197,18 @@ def _run(ctx):
     violations = []
     cfgs = configs(ctx)
     exhaustive = True
-    for name, cfg, depth, max_dev in cfgs:
+    t_start = time.perf_counter()
+    spent_share = 0.0
+    for name, cfg, depth, max_dev, share in cfgs:
         spec = NodeSpec(cfg)
+        spent_share += share
+        # what an earlier configuration did not use is passed on
+        cap = ctx.budget_s * 0.85 * spent_share - \
+            (time.perf_counter() - t_start)
         res = statex.bfs(spec, depth, max_dev=max_dev, workers=ctx.workers,
-                         time_cap=ctx.budget_s * 0.85 / len(cfgs),
-                         progress=ctx.log, chunk=8)
+                         time_cap=max(cap, 5.0),
+                         progress=lambda m, n=name: ctx.log(n + ' ' + m),
+                         chunk=8)
         cov['states'] += res.states
         cov['transitions'] += res.transitions
         cov['configs'][name] = {
@@ -187,11 +259,11 @@ def _run(ctx):
 def replay(ctx, data):
     W.make_run_root()
     try:
-        cfgs = {name: cfg for name, cfg, _d, _m in
+        cfgs = {name: cfg for name, cfg, _d, _m, _s in
                 configs(ctx, salt=data.get('salt'))}
         spec = NodeSpec(cfgs[data['config']])
         hist = [tuple(e) for e in data['history']]
-        w = statex.build(spec, hist)
+        w = spec.replayed(hist)
         seen = collections.OrderedDict()
         for v in w.viol:
             seen.setdefault((v['clause'], v['site']), v)
